@@ -1,3 +1,576 @@
-//! generator for c18 artefacts (filled in later)
-use super::Fix;
-pub fn generate(_fix: &Fix, _tier: &str, _seed: u64, _out_dir: &str) {}
+//! C18 generator: runs the REAL policy transformations natively on enumerated abstract and
+//! concrete policies and emits inputs and outputs in atom-array form; the harness decides
+//! truth-table statements over all assignments to the atoms.
+use std::fmt::Write as _;
+use std::sync::Arc;
+
+use miniscript::bitcoin::{absolute, relative, Sequence};
+use miniscript::policy::{Concrete, Liftable, Semantic};
+use miniscript::{AbsLockTime, RelLockTime, Threshold};
+
+use super::{hash_str, json_escape, write_out, Fix, Pk};
+
+#[derive(Clone, Debug, PartialEq, Eq, Hash, PartialOrd, Ord)]
+pub enum P {
+    U,
+    T,
+    K(u8),
+    A(u32),
+    O(u32),
+    H(u8),
+    Th(u8, Vec<P>),
+}
+
+impl P {
+    fn nodes(&self) -> usize {
+        match self {
+            P::Th(_, v) => 1 + v.iter().map(|x| x.nodes()).sum::<usize>(),
+            _ => 1,
+        }
+    }
+    fn show(&self) -> String {
+        match self {
+            P::U => "0".into(),
+            P::T => "1".into(),
+            P::K(i) => format!("pk(K{i})"),
+            P::A(v) => format!("after({v})"),
+            P::O(v) => format!("older({v})"),
+            P::H(j) => format!("sha256(H{j})"),
+            P::Th(k, v) => format!("thresh({},{})", k, v.iter().map(|x| x.show()).collect::<Vec<_>>().join(",")),
+        }
+    }
+    fn to_sem(&self, fix: &Fix) -> Semantic<Pk> {
+        match self {
+            P::U => Semantic::Unsatisfiable,
+            P::T => Semantic::Trivial,
+            P::K(i) => Semantic::Key(fix.dkeys[*i as usize].clone()),
+            P::A(v) => Semantic::After(AbsLockTime::from_consensus(*v).unwrap()),
+            P::O(v) => Semantic::Older(RelLockTime::from_consensus(*v).unwrap()),
+            P::H(j) => Semantic::Sha256(fix.sha[*j as usize]),
+            P::Th(k, v) => Semantic::Thresh(Threshold::new(*k as usize, v.iter().map(|x| Arc::new(x.to_sem(fix))).collect()).unwrap()),
+        }
+    }
+    /// and / or / thresh in the concrete language (and, or are binary there)
+    fn to_concrete(&self, fix: &Fix) -> Option<Concrete<Pk>> {
+        Some(match self {
+            P::U => Concrete::Unsatisfiable,
+            P::T => Concrete::Trivial,
+            P::K(i) => Concrete::Key(fix.dkeys[*i as usize].clone()),
+            P::A(v) => Concrete::After(AbsLockTime::from_consensus(*v).unwrap()),
+            P::O(v) => Concrete::Older(RelLockTime::from_consensus(*v).unwrap()),
+            P::H(j) => Concrete::Sha256(fix.sha[*j as usize]),
+            P::Th(k, v) => {
+                let subs: Option<Vec<_>> = v.iter().map(|x| x.to_concrete(fix).map(Arc::new)).collect();
+                let subs = subs?;
+                if v.len() == 2 && *k == 2 {
+                    Concrete::And(subs)
+                } else if v.len() == 2 && *k == 1 {
+                    Concrete::Or(subs.into_iter().enumerate().map(|(i, s)| (1 + i, s)).collect())
+                } else {
+                    Concrete::Thresh(Threshold::new(*k as usize, subs).ok()?)
+                }
+            }
+        })
+    }
+    fn leaves(&self, out: &mut Vec<P>) {
+        match self {
+            P::Th(_, v) => v.iter().for_each(|x| x.leaves(out)),
+            P::U | P::T => {}
+            l => {
+                if !out.contains(l) {
+                    out.push(l.clone())
+                }
+            }
+        }
+    }
+    fn key_occurrences(&self) -> usize {
+        match self {
+            P::K(_) => 1,
+            P::Th(_, v) => v.iter().map(|x| x.key_occurrences()).sum(),
+            _ => 0,
+        }
+    }
+}
+
+/// atom-array form (post-order): (kind, atom, k, n); kind 0 unsat, 1 trivial, 2 atom, 6 thresh
+type AP = Vec<(u8, u8, u8, u8)>;
+
+fn sem_to_ap(fix: &Fix, p: &Semantic<Pk>, atoms: &mut Vec<P>, out: &mut AP) {
+    let mut atom = |l: P, out: &mut AP| {
+        let i = match atoms.iter().position(|a| *a == l) {
+            Some(i) => i,
+            None => {
+                atoms.push(l);
+                atoms.len() - 1
+            }
+        };
+        out.push((2, i as u8, 0, 0));
+    };
+    match p {
+        Semantic::Unsatisfiable => out.push((0, 0, 0, 0)),
+        Semantic::Trivial => out.push((1, 0, 0, 0)),
+        Semantic::Key(k) => atom(P::K(fix.key_id(k).expect("key")), out),
+        Semantic::After(t) => atom(P::A(t.to_consensus_u32()), out),
+        Semantic::Older(t) => atom(P::O(t.to_consensus_u32()), out),
+        Semantic::Sha256(h) => atom(P::H(fix.sha.iter().position(|x| x == h).expect("hash") as u8), out),
+        Semantic::Thresh(th) => {
+            for c in th.iter() {
+                sem_to_ap(fix, c, atoms, out);
+            }
+            out.push((6, 0, th.k() as u8, th.n() as u8));
+        }
+        _ => panic!("unexpected hash kind"),
+    }
+}
+
+fn p_to_ap(p: &P, atoms: &mut Vec<P>, out: &mut AP) {
+    match p {
+        P::U => out.push((0, 0, 0, 0)),
+        P::T => out.push((1, 0, 0, 0)),
+        P::Th(k, v) => {
+            for c in v {
+                p_to_ap(c, atoms, out);
+            }
+            out.push((6, 0, *k, v.len() as u8));
+        }
+        l => {
+            let i = match atoms.iter().position(|a| a == l) {
+                Some(i) => i,
+                None => {
+                    atoms.push(l.clone());
+                    atoms.len() - 1
+                }
+            };
+            out.push((2, i as u8, 0, 0));
+        }
+    }
+}
+
+fn eval_ap(p: &AP, mask: u16) -> bool {
+    let mut st: Vec<bool> = vec![];
+    for nd in p {
+        let v = match nd.0 {
+            0 => false,
+            1 => true,
+            2 => (mask >> nd.1) & 1 == 1,
+            _ => {
+                let mut c = 0;
+                for _ in 0..nd.3 {
+                    if st.pop().unwrap() {
+                        c += 1;
+                    }
+                }
+                c >= nd.2
+            }
+        };
+        st.push(v);
+    }
+    st[0]
+}
+
+fn rel_implied(t: u32, a: u32) -> bool { (t & 0x40_0000) == (a & 0x40_0000) && (t & 0xffff) <= (a & 0xffff) }
+fn abs_implied(t: u32, a: u32) -> bool { ((t < 500_000_000) == (a < 500_000_000)) && t <= a }
+
+fn subst(p: &P, f: &dyn Fn(&P) -> bool) -> P {
+    match p {
+        P::Th(k, v) => P::Th(*k, v.iter().map(|x| subst(x, f)).collect()),
+        l => {
+            if f(l) {
+                l.clone()
+            } else {
+                P::U
+            }
+        }
+    }
+}
+
+/// All spending paths of a policy as atom sets: a threshold picks exactly k children.
+fn paths(p: &P, atoms: &mut Vec<P>, dead_ok: bool) -> Vec<u16> {
+    match p {
+        P::U => if dead_ok { vec![0] } else { vec![] },
+        P::T => vec![0],
+        P::Th(k, v) => {
+            let subs: Vec<Vec<u16>> = v.iter().map(|c| paths(c, atoms, dead_ok)).collect();
+            let n = v.len();
+            let mut out: Vec<u16> = vec![];
+            for sel in 0u32..(1 << n) {
+                if sel.count_ones() != *k as u32 {
+                    continue;
+                }
+                let mut acc: Vec<u16> = vec![0];
+                for i in 0..n {
+                    if (sel >> i) & 1 == 1 {
+                        let mut next = vec![];
+                        for a in &acc {
+                            for b in &subs[i] {
+                                if !next.contains(&(a | b)) {
+                                    next.push(a | b);
+                                }
+                            }
+                        }
+                        acc = next;
+                    }
+                }
+                for a in acc {
+                    if !out.contains(&a) {
+                        out.push(a);
+                    }
+                }
+            }
+            out
+        }
+        l => {
+            let i = atoms.iter().position(|a| a == l).expect("atom");
+            vec![1 << i]
+        }
+    }
+}
+
+fn emit_ap(out: &mut String, p: &AP) {
+    out.push_str("&[");
+    for n in p {
+        let _ = write!(out, "({},{},{},{}),", n.0, n.1, n.2, n.3);
+    }
+    out.push(']');
+}
+
+fn enumerate(tier: &str, seed: u64) -> Vec<P> {
+    let leaves = vec![P::U, P::T, P::K(0), P::K(1), P::K(2), P::A(100), P::A(200), P::A(500_000_100), P::O(10), P::O(20), P::O(0x40_0000 | 10), P::H(0)];
+    let mut l1: Vec<P> = vec![];
+    for a in &leaves {
+        for b in &leaves {
+            for k in 1..=2u8 {
+                l1.push(P::Th(k, vec![a.clone(), b.clone()]));
+            }
+        }
+    }
+    let small: Vec<P> = vec![P::U, P::T, P::K(0), P::K(1), P::A(100), P::A(500_000_100), P::O(10), P::O(0x40_0000 | 10), P::H(0)];
+    let mut l1_3: Vec<P> = vec![];
+    for a in &small {
+        for b in &small {
+            for c in &small {
+                for k in 1..=3u8 {
+                    l1_3.push(P::Th(k, vec![a.clone(), b.clone(), c.clone()]));
+                }
+            }
+        }
+    }
+    // level 2: one or two compound children
+    let mut l2: Vec<P> = vec![];
+    let inner: Vec<P> = l1.iter().filter(|p| hash_str(&p.show(), 3) % 4 == 0).cloned().collect();
+    for a in &inner {
+        for b in &small {
+            for k in 1..=2u8 {
+                l2.push(P::Th(k, vec![a.clone(), b.clone()]));
+                l2.push(P::Th(k, vec![b.clone(), a.clone()]));
+            }
+        }
+    }
+    for (i, a) in inner.iter().enumerate() {
+        for b in inner.iter().skip(i % 7).step_by(11) {
+            for k in 1..=2u8 {
+                l2.push(P::Th(k, vec![a.clone(), b.clone()]));
+            }
+            l2.push(P::Th(2, vec![a.clone(), b.clone(), P::K(2)]));
+            l2.push(P::Th(3, vec![a.clone(), b.clone(), P::K(2)]));
+        }
+    }
+    // hand-picked shapes that exercise flattening / constant folding / repeated atoms
+    let hand = vec![
+        P::Th(2, vec![P::U, P::Th(2, vec![P::K(0), P::K(1)])]),
+        P::Th(2, vec![P::O(20), P::Th(2, vec![P::K(0), P::K(1)])]),
+        P::Th(2, vec![P::K(0), P::Th(1, vec![P::K(1), P::T])]),
+        P::Th(2, vec![P::K(0), P::K(1), P::Th(1, vec![P::U, P::T])]),
+        P::Th(1, vec![P::Th(1, vec![P::U, P::T])]),
+        P::Th(2, vec![P::K(0), P::Th(1, vec![P::K(0), P::Th(2, vec![P::K(1), P::K(2)])])]),
+        P::Th(1, vec![P::Th(1, vec![P::K(0), P::K(1)]), P::Th(1, vec![P::K(2), P::H(0)])]),
+        P::Th(2, vec![P::Th(2, vec![P::K(0), P::K(1)]), P::Th(2, vec![P::K(2), P::H(0)])]),
+        P::Th(2, vec![P::Th(1, vec![P::A(100), P::K(0)]), P::Th(1, vec![P::A(500_000_100), P::K(1)])]),
+        P::Th(2, vec![P::O(10), P::O(0x40_0000 | 10)]),
+        P::Th(2, vec![P::O(0x40_0000 | 10), P::O(10)]),
+        P::Th(2, vec![P::O(10), P::A(500_000_100)]),
+        P::Th(2, vec![P::A(100), P::A(500_000_100), P::K(0)]),
+        P::Th(3, vec![P::T, P::T, P::K(0)]),
+        P::Th(1, vec![P::U, P::U, P::K(0)]),
+    ];
+    let cap1 = if tier == "thorough" { 3000 } else { 250 };
+    let cap2 = if tier == "thorough" { 3000 } else { 250 };
+    let s13 = if tier == "thorough" { seed + 13 } else { 13 };
+    let s29 = if tier == "thorough" { seed + 29 } else { 29 };
+    l1_3.sort_by_key(|p| hash_str(&p.show(), s13));
+    l1_3.truncate(cap1);
+    l2.sort_by_key(|p| hash_str(&p.show(), s29));
+    l2.dedup();
+    l2.truncate(cap2);
+    let mut all = leaves;
+    all.extend(hand);
+    all.extend(l1);
+    all.extend(l1_3);
+    all.extend(l2);
+    all.retain(|p| p.nodes() <= 9);
+    all
+}
+
+pub fn generate(fix: &Fix, tier: &str, seed: u64, out_dir: &str) {
+    let pols = enumerate(tier, seed);
+    let mut src = String::from("// generated by the native generator from /repo's current tree - do not edit\n#![allow(clippy::all)]\nuse crate::c18::{Entail, Filter, PolCase};\n");
+    let mut n_cases = 0;
+    let mut samples = vec![];
+    let mut native_findings: Vec<String> = vec![];
+    for (ci, p) in pols.iter().enumerate() {
+        let sem = p.to_sem(fix);
+        let mut atoms: Vec<P> = vec![];
+        p.leaves(&mut atoms);
+        // extra atoms that only results may mention are appended by sem_to_ap (should not happen)
+        let mut ap = vec![];
+        p_to_ap(p, &mut atoms, &mut ap);
+        let n0 = atoms.len();
+        if n0 > 12 {
+            continue;
+        }
+        let mut conv = |s: &Semantic<Pk>, atoms: &mut Vec<P>| {
+            let mut o = vec![];
+            sem_to_ap(fix, s, atoms, &mut o);
+            o
+        };
+        let norm = conv(&sem.clone().normalized(), &mut atoms);
+        let sorted = conv(&sem.clone().sorted(), &mut atoms);
+        // filters
+        let mut filters = String::new();
+        let mut nf = 0;
+        let mut ages: Vec<u32> = vec![];
+        let mut times: Vec<u32> = vec![];
+        for a in &atoms.clone() {
+            match a {
+                P::O(v) => {
+                    for x in [*v, v - 1, v + 1, v ^ 0x40_0000] {
+                        if x & 0xffff != 0 && !ages.contains(&x) {
+                            ages.push(x)
+                        }
+                    }
+                }
+                P::A(v) => {
+                    for x in [*v, v - 1, v + 1, if *v < 500_000_000 { 500_000_000 + v } else { v - 500_000_000 }] {
+                        if x >= 1 && !times.contains(&x) {
+                            times.push(x)
+                        }
+                    }
+                }
+                _ => {}
+            }
+        }
+        for a in &ages {
+            let age = match Sequence::from_consensus(*a).to_relative_lock_time() {
+                Some(x) => x,
+                None => continue,
+            };
+            let _: relative::LockTime = age;
+            let res = conv(&sem.clone().at_age(age), &mut atoms);
+            let exp_p = subst(p, &|l| match l {
+                P::O(t) => rel_implied(*t, *a),
+                _ => true,
+            });
+            let mut exp = vec![];
+            p_to_ap(&exp_p, &mut atoms, &mut exp);
+            let _ = write!(filters, "Filter{{kind:0,value:{},result:", a);
+            emit_ap(&mut filters, &res);
+            filters.push_str(",expected:");
+            emit_ap(&mut filters, &exp);
+            filters.push_str("},");
+            nf += 1;
+        }
+        for t in &times {
+            let lt = absolute::LockTime::from_consensus(*t);
+            let res = conv(&sem.clone().at_lock_time(lt), &mut atoms);
+            let exp_p = subst(p, &|l| match l {
+                P::A(v) => abs_implied(*v, *t),
+                _ => true,
+            });
+            let mut exp = vec![];
+            p_to_ap(&exp_p, &mut atoms, &mut exp);
+            let _ = write!(filters, "Filter{{kind:1,value:{},result:", t);
+            emit_ap(&mut filters, &res);
+            filters.push_str(",expected:");
+            emit_ap(&mut filters, &exp);
+            filters.push_str("},");
+            nf += 1;
+        }
+        // entailment against a few other policies over the same atoms
+        let mut qs: Vec<P> = atoms.iter().take(n0).cloned().collect();
+        qs.push(P::T);
+        qs.push(P::U);
+        if let P::Th(k, v) = p {
+            for k2 in 1..=v.len() as u8 {
+                if k2 != *k {
+                    qs.push(P::Th(k2, v.clone()));
+                }
+            }
+            for c in v {
+                qs.push(c.clone());
+            }
+        }
+        qs.dedup();
+        let mut entails = String::new();
+        let mut ne = 0;
+        for q in qs.iter().take(8) {
+            for (pp, qq) in [(p, q), (q, p)] {
+                let ans = pp.to_sem(fix).entails(qq.to_sem(fix));
+                let mut pa = vec![];
+                p_to_ap(pp, &mut atoms, &mut pa);
+                let mut qa = vec![];
+                p_to_ap(qq, &mut atoms, &mut qa);
+                let na = atoms.len();
+                let mut witness = 0xffffu16;
+                if ans == Some(false) {
+                    for m in 0..(1u32 << na) {
+                        if eval_ap(&pa, m as u16) && !eval_ap(&qa, m as u16) {
+                            witness = m as u16;
+                            break;
+                        }
+                    }
+                }
+                let _ = write!(entails, "Entail{{answer:{},witness:{},p:", match ans { Some(true) => 1, Some(false) => 0, None => 2 }, witness);
+                emit_ap(&mut entails, &pa);
+                entails.push_str(",q:");
+                emit_ap(&mut entails, &qa);
+                entails.push_str("},");
+                ne += 1;
+            }
+        }
+        // minimum number of keys (only claimed for policies without repeated keys)
+        let distinct_keys = p.key_occurrences() == atoms.iter().take(n0).filter(|a| matches!(a, P::K(_))).count();
+        let mk = sem.minimum_n_keys();
+        let mut keymask = 0u16;
+        for (i, a) in atoms.iter().enumerate() {
+            if matches!(a, P::K(_)) {
+                keymask |= 1 << i;
+            }
+        }
+        let na = atoms.len();
+        let mut mk_witness = 0xffffu16;
+        if let Some(m) = mk {
+            for w in 0..(1u32 << na) {
+                if eval_ap(&ap, w as u16) && ((w as u16) & keymask).count_ones() as usize == m {
+                    mk_witness = w as u16;
+                    break;
+                }
+            }
+        }
+        // concrete language: lift and the mixed-time-lock check
+        let (mut lifted, mut has_conc, mut tl_err, mut tl_witness, mut lift_err) = (vec![], false, false, 0xffffu16, false);
+        let mut tl_dead_witness = 0xffffu16;
+        if let Some(c) = p.to_concrete(fix) {
+            has_conc = true;
+            tl_err = c.check_timelocks().is_err();
+            match c.lift() {
+                Ok(l) => lifted = conv(&l, &mut atoms),
+                Err(_) => lift_err = true,
+            }
+            if tl_err {
+                let (mut ah, mut at, mut oh, mut ot) = (0u16, 0u16, 0u16, 0u16);
+                for (i, a) in atoms.iter().enumerate() {
+                    match a {
+                        P::A(v) if *v < 500_000_000 => ah |= 1 << i,
+                        P::A(_) => at |= 1 << i,
+                        P::O(v) if v & 0x40_0000 == 0 => oh |= 1 << i,
+                        P::O(_) => ot |= 1 << i,
+                        _ => {}
+                    }
+                }
+                // a "path" picks exactly k children of every threshold on the way down
+                let mut lookup = atoms.clone();
+                for w in paths(p, &mut lookup, false) {
+                    let conflict = (w & ah != 0 && w & at != 0) || (w & oh != 0 && w & ot != 0);
+                    if conflict {
+                        tl_witness = w;
+                        break;
+                    }
+                }
+                // the same ignoring satisfiability (an UNSATISFIABLE child counts as an empty path)
+                for w in paths(p, &mut lookup, true) {
+                    if (w & ah != 0 && w & at != 0) || (w & oh != 0 && w & ot != 0) {
+                        tl_dead_witness = w;
+                        break;
+                    }
+                }
+            } else {
+                let (mut ah, mut at, mut oh, mut ot) = (0u16, 0u16, 0u16, 0u16);
+                for (i, a) in atoms.iter().enumerate() {
+                    match a {
+                        P::A(v) if *v < 500_000_000 => ah |= 1 << i,
+                        P::A(_) => at |= 1 << i,
+                        P::O(v) if v & 0x40_0000 == 0 => oh |= 1 << i,
+                        P::O(_) => ot |= 1 << i,
+                        _ => {}
+                    }
+                }
+                let mut lookup = atoms.clone();
+                for w in paths(p, &mut lookup, false) {
+                    if (w & ah != 0 && w & at != 0) || (w & oh != 0 && w & ot != 0) {
+                        native_findings.push(format!("check_timelocks() is silent on {} although the path with atoms {:#b} needs a height- and a time-based lock of one kind", p.show(), w));
+                        break;
+                    }
+                }
+            }
+        }
+        if atoms.len() > 12 {
+            native_findings.push(format!("{}: a transformation introduced atoms not in the input", p.show()));
+            continue;
+        }
+        // atom kinds: 0 key, 1 hash, 2 after-height, 3 after-time, 4 older-height, 5 older-time
+        let kinds: Vec<u8> = atoms
+            .iter()
+            .map(|a| match a {
+                P::K(_) => 0,
+                P::H(_) => 1,
+                P::A(v) if *v < 500_000_000 => 2,
+                P::A(_) => 3,
+                P::O(v) if v & 0x40_0000 == 0 => 4,
+                _ => 5,
+            })
+            .collect();
+        let mut kinds12 = [0u8; 12];
+        for (i, k) in kinds.iter().enumerate() {
+            kinds12[i] = *k;
+        }
+        let _ = write!(src, "// {}\npub static PC{ci}: PolCase = PolCase{{name:{:?},natoms:{},kinds:{:?},keymask:{},p:", p.show(), p.show(), atoms.len(), kinds12, keymask);
+        emit_ap(&mut src, &ap);
+        src.push_str(",norm:");
+        emit_ap(&mut src, &norm);
+        src.push_str(",sorted:");
+        emit_ap(&mut src, &sorted);
+        let _ = write!(src, ",filters:&[{}],entails:&[{}],distinct_keys:{},min_keys:{},min_witness:{},has_concrete:{},lift_refused:{},lifted:", filters, entails, distinct_keys, mk.map(|m| m as i32).unwrap_or(-1), mk_witness, has_conc, lift_err);
+        emit_ap(&mut src, &lifted);
+        let _ = writeln!(src, ",timelock_err:{},timelock_witness:{},timelock_dead_witness:{}}};", tl_err, tl_witness, tl_dead_witness);
+        let _ = (nf, ne);
+        n_cases += 1;
+        if samples.len() < 12 && ci % (pols.len() / 12 + 1) == 0 {
+            samples.push(format!("{{\"case\": \"PC{}\", \"policy\": \"{}\", \"atoms\": {}, \"filters\": {}, \"entailment_queries\": {}}}", ci, json_escape(&p.show()), atoms.len(), nf, ne));
+        }
+    }
+    // wrappers
+    let ids: Vec<usize> = (0..pols.len()).filter(|i| src.contains(&format!("pub static PC{i}:"))).collect();
+    for (bi, chunk) in ids.chunks(12).enumerate() {
+        let _ = writeln!(src, "// @h c18_tv_{bi:03} kind=V programs={} timeout=1500 mem=4 covers=any", chunk.len());
+        let _ = writeln!(src, "#[cfg_attr(kani, kani::proof)]\n#[cfg_attr(kani, kani::unwind(36))]\npub fn c18_tv_{bi:03}() {{");
+        for i in chunk {
+            let _ = writeln!(src, "    crate::c18::tv(&PC{i});");
+        }
+        let _ = writeln!(src, "}}");
+    }
+    write_out(out_dir, "c18.rs", &src);
+    let info = format!(
+        "{{\"programs\": {}, \"samples\": [{}], \"native_findings\": [{}]}}",
+        n_cases,
+        samples.join(","),
+        native_findings.iter().map(|f| format!("{{\"prop\": \"C18\", \"what\": \"{}\"}}", json_escape(f))).collect::<Vec<_>>().join(",")
+    );
+    write_out(out_dir, "c18_info.json", &info);
+    // make sure generated/mod.rs lists this module
+    let modp = format!("{out_dir}/mod.rs");
+    let cur = std::fs::read_to_string(&modp).unwrap_or_default();
+    if !cur.contains("pub mod c18;") {
+        std::fs::write(&modp, format!("{}pub mod c18;\n", if cur.is_empty() { "// generated - do not edit\n".to_string() } else { cur })).unwrap();
+    }
+    println!("generated {} policy cases", n_cases);
+}
